@@ -9,6 +9,12 @@ package main
 import (
 	"fmt"
 	"go/ast"
+	"go/parser"
+	"go/printer"
+	"go/token"
+	"math/big"
+	"os"
+	"path/filepath"
 	"regexp"
 	"sort"
 	"strconv"
@@ -19,15 +25,17 @@ import (
 
 func main() {
 	gen.Main("C18", func(c *gen.Ctx, l *gen.Lean) error {
-		svc, err := c.Load("service")
+		// Only syntax is needed (statement shapes and integer constants): the packages are parsed, not
+		// type-checked - type-checking `service` from source drags in every dependency of the module.
+		svc, err := loadLight(c.Repo, "service")
 		if err != nil {
 			return err
 		}
-		ss, err := c.Load("ss2022")
+		ss, err := loadLight(c.Repo, "ss2022")
 		if err != nil {
 			return err
 		}
-		rt, err := c.Load("router")
+		rt, err := loadLight(c.Repo, "router")
 		if err != nil {
 			return err
 		}
@@ -42,12 +50,12 @@ func main() {
 }
 
 type gctx struct {
-	svc, ss, rt *gen.Pkg
+	svc, ss, rt *pkg
 	l       *gen.Lean
 }
 
 // intOf resolves a decimal literal or a package-level constant name.
-func intOf(p *gen.Pkg, tok string) (string, error) {
+func intOf(p *pkg, tok string) (string, error) {
 	if _, err := strconv.ParseUint(tok, 10, 64); err == nil {
 		return tok, nil
 	}
@@ -55,11 +63,19 @@ func intOf(p *gen.Pkg, tok string) (string, error) {
 }
 
 func (g *gctx) consts() error {
-	if err := g.l.Consts(g.svc, "minimumMTU", "defaultRelayBatchSize", "defaultServerRecvBatchSize", "defaultSendChannelCapacity", "defaultNatTimeout"); err != nil {
-		return err
+	for _, n := range []string{"minimumMTU", "defaultRelayBatchSize", "defaultServerRecvBatchSize", "defaultSendChannelCapacity", "defaultNatTimeout"} {
+		v, err := g.svc.ConstInt(n)
+		if err != nil {
+			return err
+		}
+		g.l.NatDef(n, v, "service."+n)
 	}
-	if err := g.l.Consts(g.ss, "ReplayWindowDuration", "DefaultSlidingWindowFilterSize"); err != nil {
-		return err
+	for _, n := range []string{"ReplayWindowDuration", "DefaultSlidingWindowFilterSize"} {
+		v, err := g.ss.ConstInt(n)
+		if err != nil {
+			return err
+		}
+		g.l.NatDef(n, v, "ss2022."+n)
 	}
 	// MinNATTimeout of the ss2022 UDP session server (composite literal in NewUDPServer).
 	fd, err := g.ss.Func("", "NewUDPServer")
@@ -419,7 +435,7 @@ func (g *gctx) policies() error {
 }
 
 // stmtsMentioning returns the innermost simple statements / if-headers of body that mention ident.
-func stmtsMentioning(p *gen.Pkg, body *ast.BlockStmt, ident string) []ast.Stmt {
+func stmtsMentioning(p *pkg, body *ast.BlockStmt, ident string) []ast.Stmt {
 	var res []ast.Stmt
 	var walk func(s ast.Stmt)
 	mentions := func(n ast.Node) bool { return n != nil && strings.Contains(p.Src(n), ident) }
@@ -790,4 +806,174 @@ func (g *gctx) setNames() error {
 		g.l.BoolDef(x.lean, checked, "router.Config.Router: a second "+x.what+" of the same name is rejected")
 	}
 	return nil
+}
+
+// ---------- a syntax-only package view ----------
+
+type pkg struct {
+	dir    string
+	fset   *token.FileSet
+	files  []*ast.File
+	consts map[string]ast.Expr
+}
+
+func loadLight(repo, dir string) (*pkg, error) {
+	p := &pkg{dir: dir, fset: token.NewFileSet(), consts: map[string]ast.Expr{}}
+	ents, err := os.ReadDir(filepath.Join(repo, dir))
+	if err != nil {
+		return nil, err
+	}
+	for _, e := range ents {
+		n := e.Name()
+		if !strings.HasSuffix(n, ".go") || strings.HasSuffix(n, "_test.go") {
+			continue
+		}
+		f, err := parser.ParseFile(p.fset, filepath.Join(repo, dir, n), nil, parser.ParseComments|parser.SkipObjectResolution)
+		if err != nil {
+			return nil, err
+		}
+		p.files = append(p.files, f)
+		for _, d := range f.Decls {
+			gd, ok := d.(*ast.GenDecl)
+			if !ok || gd.Tok != token.CONST {
+				continue
+			}
+			for _, sp := range gd.Specs {
+				vs := sp.(*ast.ValueSpec)
+				for i, id := range vs.Names {
+					if i < len(vs.Values) {
+						if _, dup := p.consts[id.Name]; dup {
+							p.consts[id.Name] = nil // declared in more than one (build-tagged) file: not evaluated
+						} else {
+							p.consts[id.Name] = vs.Values[i]
+						}
+					}
+				}
+			}
+		}
+	}
+	return p, nil
+}
+
+func (p *pkg) Src(n ast.Node) string {
+	var sb strings.Builder
+	printer.Fprint(&sb, p.fset, n)
+	return strings.Join(strings.Fields(sb.String()), " ")
+}
+
+func (p *pkg) Func(recv, name string) (*ast.FuncDecl, error) {
+	var found *ast.FuncDecl
+	for _, f := range p.files {
+		for _, d := range f.Decls {
+			fd, ok := d.(*ast.FuncDecl)
+			if !ok || fd.Name.Name != name || fd.Body == nil {
+				continue
+			}
+			match := recv == "" && fd.Recv == nil
+			if recv != "" && fd.Recv != nil && len(fd.Recv.List) == 1 {
+				match = strings.TrimPrefix(p.Src(fd.Recv.List[0].Type), "*") == strings.TrimPrefix(recv, "*")
+			}
+			if match {
+				if found != nil {
+					return nil, fmt.Errorf("%s: function %s.%s is declared more than once (build-tagged variants are not handled)", p.dir, recv, name)
+				}
+				found = fd
+			}
+		}
+	}
+	if found == nil {
+		return nil, fmt.Errorf("%s: function %s.%s not found", p.dir, recv, name)
+	}
+	return found, nil
+}
+
+var timeUnits = map[string]int64{"Nanosecond": 1, "Microsecond": 1000, "Millisecond": 1000000, "Second": 1000000000, "Minute": 60000000000, "Hour": 3600000000000}
+
+// eval evaluates an integer constant expression made of literals, constants of the same package,
+// time.<Unit>, parentheses, conversions to integer/duration types and + - * / << >>.
+func (p *pkg) eval(e ast.Expr, depth int) (*big.Int, error) {
+	if depth > 20 {
+		return nil, fmt.Errorf("constant expression too deep")
+	}
+	switch t := e.(type) {
+	case *ast.BasicLit:
+		if t.Kind == token.INT {
+			v, ok := new(big.Int).SetString(strings.ReplaceAll(t.Value, "_", ""), 0)
+			if ok {
+				return v, nil
+			}
+		}
+	case *ast.ParenExpr:
+		return p.eval(t.X, depth+1)
+	case *ast.Ident:
+		if d, ok := p.consts[t.Name]; ok && d != nil {
+			return p.eval(d, depth+1)
+		}
+	case *ast.SelectorExpr:
+		if x, ok := t.X.(*ast.Ident); ok && x.Name == "time" {
+			if u, ok := timeUnits[t.Sel.Name]; ok {
+				return big.NewInt(u), nil
+			}
+		}
+	case *ast.CallExpr:
+		if len(t.Args) == 1 {
+			switch p.Src(t.Fun) {
+			case "int", "int64", "uint64", "uint", "time.Duration":
+				return p.eval(t.Args[0], depth+1)
+			}
+		}
+	case *ast.BinaryExpr:
+		a, err := p.eval(t.X, depth+1)
+		if err != nil {
+			return nil, err
+		}
+		b, err := p.eval(t.Y, depth+1)
+		if err != nil {
+			return nil, err
+		}
+		switch t.Op {
+		case token.ADD:
+			return new(big.Int).Add(a, b), nil
+		case token.SUB:
+			return new(big.Int).Sub(a, b), nil
+		case token.MUL:
+			return new(big.Int).Mul(a, b), nil
+		case token.QUO:
+			if b.Sign() != 0 {
+				return new(big.Int).Quo(a, b), nil
+			}
+		case token.SHL:
+			if b.IsUint64() && b.Uint64() < 1024 {
+				return new(big.Int).Lsh(a, uint(b.Uint64())), nil
+			}
+		case token.SHR:
+			if b.IsUint64() && b.Uint64() < 1024 {
+				return new(big.Int).Rsh(a, uint(b.Uint64())), nil
+			}
+		}
+	}
+	return nil, fmt.Errorf("%s: cannot evaluate constant expression %q", p.dir, p.Src(e))
+}
+
+func (p *pkg) ConstInt(name string) (string, error) {
+	d, ok := p.consts[name]
+	if !ok || d == nil {
+		return "", fmt.Errorf("%s.%s: no such (uniquely declared) constant", p.dir, name)
+	}
+	v, err := p.eval(d, 0)
+	if err != nil {
+		return "", err
+	}
+	if v.Sign() < 0 {
+		return "", fmt.Errorf("%s.%s: negative constant %s", p.dir, name, v)
+	}
+	return v.String(), nil
+}
+
+func (p *pkg) EvalInt(e ast.Expr) (string, bool) {
+	v, err := p.eval(e, 0)
+	if err != nil || v.Sign() < 0 {
+		return "", false
+	}
+	return v.String(), true
 }
